@@ -45,6 +45,9 @@ def gen_cases(rng, tier):
             neg = [Fraction(v, 4) for v in vals[npos:]]
         else:
             pos, neg = score_list(rng, npos, style), score_list(rng, nneg, style)
+        if k % 9 == 2:      # quantised scores 0 .. 255: the same data is also run as uint8 arrays (swap relation, equality with float)
+            pos = [Fraction(v) for v in rng.sample(range(40, 256), max(npos, 1))]
+            neg = [Fraction(v) for v in rng.sample(range(0, 220), max(nneg, 1))]
         sc, ec = rng.choice(CONFIGS)
         allv = pos + neg
         thr = []
@@ -93,6 +96,11 @@ def run_impl(case):
            "rates": rts(s, thr), "rates_swap": rts(sw, thr), "rates_aff": rts(af, a * thr + b),
            "swap_flags": [sw.score_class.value, sw.equal_class.value, int(sw.nb_easy_pos), int(sw.nb_easy_neg)],
            "swap_pos": [enc(float(x)) for x in sw.pos], "swap_neg": [enc(float(x)) for x in sw.neg]}
+    allf = np.concatenate([pos, neg])
+    if len(allf) and np.all(allf == np.floor(allf)) and allf.min() >= 0 and allf.max() <= 255:
+        su = Scores(pos.astype(np.uint8)[::-1].copy(), neg.astype(np.uint8)[::-1].copy(), score_class=case["sc"], equal_class=case["ec"], **kw)
+        out["cm_u8"] = mats(su, thr)
+        out["cm_swap_u8"] = mats(su.swap(), thr)
     targets = np.array([fl(t) for t in case["targets"]], dtype=float)
     rel, _ = tc.relevant(case)
     if rel:
@@ -181,6 +189,14 @@ def oracle(case, res):
         fails.append(("C08/swap-flags", f"swapped object has flags/easy counts {r['swap_flags']}"))
     if sorted(F(x) for x in r["swap_pos"]) != sorted(F(x) for x in case["neg"]) or sorted(F(x) for x in r["swap_neg"]) != sorted(F(x) for x in case["pos"]):
         fails.append(("C08/swap-scores", "swapped object does not hold the other class's scores"))
+    if "cm_u8" in r:
+        for j, m in enumerate(r["cm"]):
+            if r["cm_u8"][j] != m:
+                fails.append((f"C08/uint8-cm/{cfg}", f"threshold {case['thr'][j]}: the same scores as a uint8 array give cm {r['cm_u8'][j]}, as float64 {m}"))
+                break
+            if r["cm_swap_u8"][j] != [m[3], m[2], m[1], m[0]]:
+                fails.append((f"C08/swap-cm/uint8/{cfg}", f"threshold {case['thr'][j]}: cm {m}, swapped uint8 object {r['cm_swap_u8'][j]}"))
+                break
     if "gcm" in r:
         for j, m in enumerate(r["gcm"]):
             if r["gcm_swap"][j] != [m[3], m[2], m[1], m[0]]:
